@@ -22,7 +22,7 @@ class C02(Spec):
     trusted = ['modelled, not verified: cstl_rbtree_insert / __cstl_rbtree_erase and their fix-up functions are transcribed '
                'by hand into TreeModel.v (zipper contexts instead of parent pointers, the stack stand-in of '
                '__cstl_rbtree_erase is the empty subtree at the hole); comparison callbacks are modelled as key projections',
-               'parent links are checked on the implementation by the driver decoder at every state, not proved']
+               'parent links: proved on the pointer-level model TreeLinksModel.v (C02_parent_links, C02_links_run_refines: it simulates the zipper model), which runs next to the zipper model and the C code on every case; on the C code itself they are checked by the driver decoder at every state']
     assumptions_text = ['an element is linked into the tree at most once (documented precondition)',
                         'the comparison function is a total preorder given by an integer key']
 
@@ -123,7 +123,7 @@ MANIFEST = dict(
          'histories) under ASan/UBSan, comparing shape, colours and every parent pointer after every operation.',
     note='trusted: Coq kernel; hand transcription of rbtree.c/bintree.c into TreeModel.v validated only by the correspondence '
          'run; extraction (ExtrOcamlBasic) + OCaml runner; C driver and its decoder; comparison callbacks modelled as key '
-         'projections; parent links are checked on the implementation at every explored state, not proved',
+         'projections; the pointer-level model (parent pointers, every link write of rotate/erase/fix-ups in source order, stack stand-in node) is a hand transcription too, proved to simulate the zipper model and to keep every child\'s parent link consistent, and tied to the C code by the same differential run',
     technique='Coq proof (zipper invariants: one red-red violation at x / hole one black short; induction over operations) '
               '+ model/code differential correspondence',
     design='6 (C02), appendix A.3')
